@@ -664,6 +664,19 @@ type MisuseCase struct {
 	Ops  []MisuseOp `json:"ops"`
 }
 
+// acquirable: after every lock the model holds has been released, taking the lock again must succeed at
+// once; a lock that cannot be taken within 30 s (normal: microseconds) has leaked a holder.
+func acquirable(take func(), what string) error {
+	done := make(chan struct{})
+	go func() { take(); close(done) }()
+	select {
+	case <-done:
+		return nil
+	case <-time.After(30 * time.Second):
+		return fmt.Errorf("%s cannot be locked after every lock of the history was released (a holder leaked: a failed unlock changed the lock state?)", what)
+	}
+}
+
 func runMisuse(c MisuseCase, vd *verdict) error {
 	vd.label("prim:" + c.Prim)
 	ctx := context.Background()
@@ -699,13 +712,25 @@ func runMisuse(c MisuseCase, vd *verdict) error {
 				if !locked {
 					vd.nontrivial = true
 					vd.label("misuse:unlock_unheld")
-					return expectClass(e, value.MutexUnlockedErrorClass, fmt.Sprintf("op %d: unlock of an unheld Mutex", i))
+					if err := expectClass(e, value.MutexUnlockedErrorClass, fmt.Sprintf("op %d: unlock of an unheld Mutex", i)); err != nil {
+						return err
+					}
+					// "already unlocked": the failed unlock leaves the mutex unlocked and usable
+					continue
 				}
 				if err := noErr(e, "unlock"); err != nil {
 					return err
 				}
 				locked = false
 			}
+		}
+		if locked {
+			if err := noErr(m.Unlock(), "final unlock"); err != nil {
+				return err
+			}
+		}
+		if err := acquirable(func() { m.Lock(); m.Unlock() }, "Mutex"); err != nil {
+			return err
 		}
 	case "rwmutex", "romutex":
 		rw := value.NewRWMutex()
@@ -734,7 +759,10 @@ func runMisuse(c MisuseCase, vd *verdict) error {
 				if !writer {
 					vd.nontrivial = true
 					vd.label("misuse:unlock_unheld_write")
-					return expectClass(e, value.RWMutexUnlockedErrorClass, fmt.Sprintf("op %d: unlock of a RWMutex not locked for writing (readers=%d)", i, readers))
+					if err := expectClass(e, value.RWMutexUnlockedErrorClass, fmt.Sprintf("op %d: unlock of a RWMutex not locked for writing (readers=%d)", i, readers)); err != nil {
+						return err
+					}
+					continue // the failed unlock changes nothing
 				}
 				if err := noErr(e, "unlock"); err != nil {
 					return err
@@ -750,13 +778,30 @@ func runMisuse(c MisuseCase, vd *verdict) error {
 				if readers == 0 {
 					vd.nontrivial = true
 					vd.label("misuse:unlock_unheld_read")
-					return expectClass(e, value.RWMutexUnlockedErrorClass, fmt.Sprintf("op %d: read_unlock of a RWMutex not locked for reading (writer=%v)", i, writer))
+					if err := expectClass(e, value.RWMutexUnlockedErrorClass, fmt.Sprintf("op %d: read_unlock of a RWMutex not locked for reading (writer=%v)", i, writer)); err != nil {
+						return err
+					}
+					continue // the failed read_unlock changes nothing
 				}
 				if err := noErr(e, "read_unlock"); err != nil {
 					return err
 				}
 				readers--
 			}
+		}
+		// release what the model says is held; afterwards the lock must be free in both modes
+		if writer {
+			if err := noErr(rw.Unlock(), "final unlock"); err != nil {
+				return err
+			}
+		}
+		for ; readers > 0; readers-- {
+			if err := noErr(rw.ReadUnlock(), "final read_unlock"); err != nil {
+				return err
+			}
+		}
+		if err := acquirable(func() { rw.Lock(); rw.Unlock(); rw.ReadLock(); rw.ReadUnlock() }, "RWMutex"); err != nil {
+			return err
 		}
 	case "channel":
 		ch := value.NewChannelOfValue(c.Cap)
